@@ -584,7 +584,9 @@ pub fn payable_function(f: &File) -> Vec<Site> {
         for fd in functions(c) {
             let (pe, _, payable) = fn_vis(fd);
             if fd.body.is_some() && pe && !payable {
-                let canonical = fd.ty == pt::FunctionTy::Function && fd.name.is_some();
+                // a `fallback` is a public/external function with a body like any other; constructors,
+                // `receive` (always payable) and modifiers stay undecided
+                let canonical = (fd.ty == pt::FunctionTy::Function && fd.name.is_some()) || fd.ty == pt::FunctionTy::Fallback;
                 out.push(site(fd.loc.start(), canonical, if canonical { "public-nonpayable-function" } else { "public-nonpayable-special" }, "Contract.part"));
             }
         }
@@ -789,6 +791,13 @@ pub fn floating_pragma(f: &File) -> Vec<Site> {
                         out.push(site(loc.start(), true, "^X.Y.Z", "SourceUnit.part"));
                         continue;
                     }
+                }
+                // a caret range anywhere in the value ("every caret-ranged pragma"): `^` followed by digits
+                let bytes = v.as_bytes();
+                let caret_range = (0..bytes.len()).any(|i| bytes[i] == b'^' && v[i + 1..].trim_start().chars().next().map(|c| c.is_ascii_digit()).unwrap_or(false));
+                if caret_range {
+                    out.push(site(loc.start(), true, "caret-range-in-compound-pragma", "SourceUnit.part"));
+                    continue;
                 }
                 if is_ver(v) || v.strip_prefix('=').map(|r| is_ver(r.trim())).unwrap_or(false) {
                     continue; // pinned: must not be reported
